@@ -99,10 +99,7 @@ class Arm(Robot):
         self.screw_list_body = np.zeros((6, self.num_dof))
         self.initialize(base_pos_global, screw_list, end_effector_home, joint_poses_home)
 
-        for i in range(0, self.num_dof):
-            self.screw_list_body[:, i] = (
-                fmr.Adjoint(self._end_effector_home.inv().gTM()) @
-                self.screw_list[:, i])
+        self._helper_update_body_screws()
     # Backups
         self.original_screw_list = screw_list.copy()
         self.FK(np.zeros((self.num_dof)))
@@ -898,6 +895,7 @@ class Arm(Robot):
         self._end_effector_home = new_home
         self._end_effector_home_local = fsr.globalToLocal(self._base_pos_global, new_home)
         self._helper_determine_eef_to_last_joint()
+        self._helper_update_body_screws()
         self.FK(self._theta)
 
     #Converted to Python - Joshua
@@ -906,6 +904,7 @@ class Arm(Robot):
         self._end_effector_home = self._original_end_effector_home
         self._end_effector_home_local = fsr.globalToLocal(self._base_pos_global, self._end_effector_home)
         self._helper_determine_eef_to_last_joint()
+        self._helper_update_body_screws()
         self.FK(self._theta)
 
     def getScrewList(self) -> 'np.ndarray[float]':
@@ -1432,6 +1431,7 @@ class Arm(Robot):
         self.initialize(new_base_pos_global, self.original_screw_list.copy(),
             self._end_effector_home_local, self.original_joint_poses_home)
         self._original_end_effector_home = new_base_pos_global @ original_home_local
+        self._helper_update_body_screws()
         if stationary == False:
             self.FK(self._theta)
         else:
@@ -1449,6 +1449,14 @@ class Arm(Robot):
     """
     Helpers to avoid code duplication
     """
+    def _helper_update_body_screws(self):
+        """
+        Re-derive the body-frame screws from the space-frame screws and the current tool home
+        """
+        ad_inv_home = fmr.Adjoint(self._end_effector_home.inv().gTM())
+        for i in range(0, self.num_dof):
+            self.screw_list_body[:, i] = ad_inv_home @ self.screw_list[:, i]
+
     def _helper_determine_eef_to_last_joint(self):
         """
         Determine if an eef to last joint transform is required.
